@@ -36,6 +36,9 @@ def parseOp (nk : Nat) (s : String) : Option Op :=
   | ['d', k] => (digit? k).bind fun k => if k < nk then some (.cdel k) else none
   | ['R', k] => (digit? k).bind fun k => if k < nk then some (.refs k) else none
   | ['G'] => some .range
+  | ['c'] => some .closeAll
+  | ['O', k, 'o'] => (digit? k).bind fun k => if k < nk then some (.ln k true) else none
+  | ['O', k, 'f'] => (digit? k).bind fun k => if k < nk then some (.ln k false) else none
   | _ => none
 
 def parseProg (nk : Nat) (s : String) : Option (List Op) :=
@@ -64,12 +67,34 @@ def numIn (s : String) (lo hi : Nat) : Bool :=
      | some n => lo ≤ n && n ≤ hi
      | none => false)
 
+/-- `writers` lines: only the client operations -/
+def clientProg (s : String) : Bool :=
+  s.toList.all fun c => c == 'O' || c == 'o' || c == 'f' || c == 'c' || c == ',' || c == ';' || c == '-' || (digit? c).isSome
+
+def plainProg (s : String) : Bool := s.toList.all fun c => c != 'O' && c != 'c'
+
 def handle : List String → String
   | ["stress", seed, nt, iters, nk, mode] =>
     -- un-forced run: nothing to compare but the well-formedness of the line
     if numIn seed 0 999999999 && numIn nt 2 8 && numIn iters 1 5000 && numIn nk 1 4 && (mode == "a" || mode == "b")
     then "stress-ok" else "bad-op"
+  | ["writers", nk, progs, sched] =>
+    -- the same model, driven through the real log-writer client (Logging.openWriter / closeLogs):
+    -- `O<k>o` / `O<k>f` openWriter with key k whose OpenWriter succeeds / fails, `c` closeLogs
+    if !clientProg progs then "bad-op" else
+    match parseNk nk with
+    | none => "bad-op"
+    | some nk =>
+      match parseProgs nk progs with
+      | none => "bad-op"
+      | some ps =>
+        -- closeLogs is the last thing a Logging does (it keeps its writerKeys, so it is not reusable)
+        if ps.any (fun p => p.dropLast.contains .closeAll) then "bad-op" else
+        match parseSched ps.length sched with
+        | none => "bad-op"
+        | some sc => runCase nk ps sc
   | ["sched", nk, progs, sched] =>
+    if !plainProg progs then "bad-op" else
     match parseNk nk with
     | none => "bad-op"
     | some nk =>
